@@ -13,6 +13,7 @@ import (
 type FWaiter struct {
 	Site     string
 	Lock     bool // parked because a TryLock failed
+	Sync     bool // parked in front of a synchronisation operation (lock, channel, select, go)
 	Runnable bool
 	Seq      uint64
 	G        uint64 // goroutine identity (not an ordering)
@@ -54,15 +55,16 @@ type FDriver struct {
 	// == 0 (HoldMod 0: none); about every second arrival at a stall site is held there (at most
 	// MaxHolds per run): the goroutine is not resumed until HoldFor of simulated time has passed, or,
 	// with HoldFor 0, until nothing else can run. ReleaseAll ends all holds (fault free epilogue).
-	HoldMod  int
-	HoldSeed uint64
-	HoldFor  time.Duration
-	MaxHolds int
-	Holds    int // how many goroutines were held (fault count)
-	held     map[interface{}]time.Time
-	seen     map[interface{}]bool
-	arrivals map[string]uint64
-	released bool
+	HoldMod   int
+	HoldSeed  uint64
+	HoldFor   time.Duration
+	MaxHolds  int
+	Holds     int // how many goroutines were held (fault count)
+	held      map[interface{}]time.Time
+	seen      map[interface{}]bool
+	arrivals  map[string]uint64
+	siteHolds map[string]int
+	released  bool
 	// Trace, if set, is told every resumed site (debugging aid, VERIF_FTRACE=1).
 	Trace func(site string, runnable int)
 }
@@ -71,7 +73,7 @@ type FDriver struct {
 // poll order seed of rewritten select statements, and the stall plan.
 func NewFDriver(t *tape.Tape) *FDriver {
 	sch := NewFScheduler()
-	d := &FDriver{S: sch, T: t, Preempt: []int{4, 8, 20}[t.Draw(3)], MaxHolds: 6}
+	d := &FDriver{S: sch, T: t, Preempt: []int{4, 8, 20}[t.Draw(3)], MaxHolds: 12}
 	sch.SetSelectSeed(uint64(t.Draw(1 << 20)))
 	d.HoldMod = []int{0, 30, 100, 300}[t.Draw(4)]
 	d.HoldSeed = uint64(t.Draw(1 << 20))
@@ -137,6 +139,7 @@ func (d *FDriver) applyHolds(rs []FWaiter) []FWaiter {
 	})
 	if d.seen == nil {
 		d.seen, d.held, d.arrivals = map[interface{}]bool{}, map[interface{}]time.Time{}, map[string]uint64{}
+		d.siteHolds = map[string]int{}
 	}
 	now := time.Now() // the bubble's clock
 	for _, w := range rs {
@@ -151,14 +154,25 @@ func (d *FDriver) applyHolds(rs []FWaiter) []FWaiter {
 			h = (h ^ uint64(w.Site[i])) * 1099511628211
 		}
 		h ^= h >> 29
-		if h%uint64(d.HoldMod) != 0 || d.Holds >= d.MaxHolds {
+		if force := os.Getenv("VERIF_FORCE_STALL_SITE"); force != "" && w.Site == force {
+			// debugging aid: always stall here
+			d.held[w.Ref] = now.Add(d.HoldFor)
+			d.Holds++
 			continue
+		}
+		mod := uint64(d.HoldMod)
+		if w.Sync && mod > 8 {
+			mod /= 4 // sites in front of a synchronisation operation are four times as likely to be stall sites
+		}
+		if h%mod != 0 || d.Holds >= d.MaxHolds || d.siteHolds[w.Site] >= 2 {
+			continue // not a stall site of this run, or its share is used up (at most two holds per site)
 		}
 		h = (h ^ n ^ 0x2545f4914f6cdd1d) * 1099511628211
 		h ^= h >> 31
 		if h&1 == 0 {
 			d.held[w.Ref] = now.Add(d.HoldFor)
 			d.Holds++
+			d.siteHolds[w.Site]++
 		}
 	}
 	var free, heldNow []FWaiter
@@ -200,7 +214,15 @@ func (d *FDriver) Step() bool {
 	}
 	i := 0
 	if len(rs) > 1 {
-		if d.Preempt > 0 && d.T.Draw(d.Preempt) == d.Preempt-1 {
+		// a switch away from the running goroutine: 1 in Preempt steps, three times as often when it
+		// stands in front of a synchronisation operation
+		p := d.Preempt
+		for k := range rs {
+			if rs[k].G == d.lastG && rs[k].Sync && p > 3 {
+				p = (p + 2) / 3
+			}
+		}
+		if p > 0 && d.T.Draw(p) == p-1 {
 			i = d.T.Draw(len(rs))
 		} else {
 			// keep running the goroutine resumed last, if it can run; else the tape picks the next one
